@@ -94,4 +94,20 @@ def run(ctx):
             x = [0, 1, q - 1, ctx.rng.randrange(q)][n % 4]
             cases.append(("ABS"[n % 3], pws[n % len(pws)], ids[n % len(ids)][0], ids[n % len(ids)][1], x, n % 4, n))
         traces += persist_traces(uni, mp, g, ps, cases, "shipped")
+    # deep chains: a session persisted and revived many times before it finishes
+    for ps, g, depth in [("Pi11", "i11", 40 if thorough else 25), ("Ped37", "ed37", 12), ("PEd25519", "Ed25519", 10 if thorough else 6), ("P1024", "I1024", 8)]:
+        G = uni.group(g)
+        q = G.order()
+        for cls in ("ABS" if thorough else "AS"):
+            r = Run("deep-chain/%s/%s" % (g, cls), uni)
+            r.new("a", cls, ps, b"\x00pw\xff", b"id\x80", b"\x00" if cls != "S" else b"")
+            m = r.start("a", mp.stream_for(g, (q - 1) if cls == "A" else 5 % q))
+            cur = "a"
+            for n in range(depth):
+                blob = r.serialize(cur)
+                if blob is not None and r.restore("c%d" % n, cls, ps, blob) is not None:
+                    cur = "c%d" % n
+            r.finish(cur, PEER[cls] + G.Base.scalarmult(7 % q or 1).to_bytes())
+            r.serialize(cur)
+            traces.append(r.json())
     ctx.validate(traces, uni, what="persist/restore")
